@@ -301,6 +301,9 @@ def run_long_shard(sh, res):
 
 
 def run_shard(sh):
+    if sh.get('child_env') is not None:
+        # the same exploration in a fresh interpreter under another process environment: what is read depends on the content and the encoding ARGUMENT, not on the locale
+        return core.run_shard_in_child('vf.checks.c12', sh, sh['child_env'], sh.get('child_unset', ()))
     res = core.Result()
     if sh['kind'] == 'medium':
         run_medium_shard(sh, res)
@@ -336,6 +339,11 @@ def build(tier, seed):
         shards.append({'kind': 'bom', 'policy': policy, 'dlm': dlm, 'syms': ['\ufeff', o, '"', ',' if policy != 'whitespace' else ' ', '\n', '#'], 'maxlen': 5 if tier == 'thorough' else 4})
     for s in BYTE_SAMPLES:
         shards.append({'kind': 'bytes', 'sample': s, 'chunk_sizes': [1, 2, 1024] if tier == 'thorough' else [1, 1024]})
+    hostile = [({'LC_ALL': 'C', 'PYTHONUTF8': '0', 'PYTHONCOERCECLOCALE': '0'}, ('LANG', 'LC_CTYPE', 'PYTHONIOENCODING')), ({'PYTHONIOENCODING': 'latin-1', 'LC_ALL': 'C.UTF-8'}, ('LANG',)),
+               ({'LC_ALL': 'POSIX', 'PYTHONUTF8': '0', 'PYTHONIOENCODING': 'ascii:surrogateescape', 'PYTHONCOERCECLOCALE': '0'}, ('LANG', 'LC_CTYPE'))]
+    for s in (BYTE_SAMPLES[:3] + BYTE_SAMPLES[8:10]) if tier != 'thorough' else BYTE_SAMPLES:
+        for envo, unset in hostile:
+            shards.append({'kind': 'bytes', 'sample': s, 'chunk_sizes': [1, 1024], 'child_env': envo, 'child_unset': list(unset)})
     for t in MEDIUM_TEXTS:
         shards.append({'kind': 'medium', 'text': t, 'maxcuts': 3 if tier == 'thorough' else 2})
     for L in ([1100, 2500, 70000] if tier == 'thorough' else [1100, 2500]):
@@ -351,13 +359,13 @@ def main(tier, seed):
     res = core.run_shards('vf.checks.c12', shards)
     return core.finish(PID, tier, seed, res, t0,
         rule='all texts up to the bound over {o, quote, comma, LF, CR, #, space} x all 2^(n-1) compositions of the delivery x chunk sizes 1..n+1 x 5 policies x comment '
-             'prefix x header; byte level: all compositions of the UTF-8 samples x {utf-8, latin-1}; every text up to 4-5 characters over {BOM, o, quote, delimiter, LF, #} containing a BOM at any position (whole read, chunk sizes, 2-piece byte deliveries); states = delivery-tree nodes (2^n per text and configuration), '
+             'prefix x header; byte level: all compositions of the UTF-8 samples x {utf-8, latin-1}, five of them again in child interpreters under three hostile process environments (ASCII-only C / POSIX locale without UTF-8 mode, PYTHONIOENCODING=latin-1); every text up to 4-5 characters over {BOM, o, quote, delimiter, LF, #} containing a BOM at any position (whole read, chunk sizes, 2-piece byte deliveries); states = delivery-tree nodes (2^n per text and configuration), '
              'transitions = read() calls answered; non-trivial = multi-piece delivery of a text containing CR or a quote',
         assumptions=['the reader only talks to its stream through read(k): every answer sequence a stream can give is a composition of the content (requests smaller than a piece split it)',
                      'under an encoding the reader wraps the raw stream in its own TextIOWrapper (universal newlines), so compositions exercise the incremental decoder and newline translation',
                      'field-count warning numbers are compared for header-less input only'],
         extra={'bounds': {'text_maxlen': 6 if tier == 'thorough' else 5, 'len7_slice': tier == 'thorough', 'byte_samples': BYTE_SAMPLES}},
-        min_features={'texts_with_crlf': 100, 'texts_ending_cr': 100, 'rfc_multiline_records': 50, 'bom_cases': 4, 'bom_texts_not_leading': 2000, 'bom_texts_leading': 500, 'byte_level_executions': 1000, 'long_line_executions': 50})
+        min_features={'texts_with_crlf': 100, 'texts_ending_cr': 100, 'rfc_multiline_records': 50, 'bom_cases': 4, 'child_interpreter_shards': 10, 'bom_texts_not_leading': 2000, 'bom_texts_leading': 500, 'byte_level_executions': 1000, 'long_line_executions': 50})
 
 
 def replay(rep):
